@@ -1865,6 +1865,9 @@ class Interp(object):
                 return e
             return e if isinstance(op, ast.Eq) else not e
         # ordering
+        if isinstance(op, (ast.Lt, ast.LtE, ast.Gt, ast.GtE)) and any(
+                isinstance(o, Opaque) and o.desc == 'np.nan' for o in (l, r)):
+            return False            # every ordering test with nan is false
         if is_scalar(l) and is_scalar(r):
             a, b = to_rat(l), to_rat(r)
             d = a - b
@@ -2063,14 +2066,23 @@ class Interp(object):
         if isinstance(l, SArr) or isinstance(r, SArr):
             la = l.items if isinstance(l, SArr) else None
             ra = r.items if isinstance(r, SArr) else None
+            def elem(a, b):
+                # NumPy array division does not raise: 0 / 0 is nan
+                if op is ast.Div and is_scalar(a) and is_scalar(b) and \
+                        not isinstance(a, Opaque) and \
+                        not isinstance(b, Opaque) and to_rat(b).is_zero():
+                    if to_rat(a).is_zero():
+                        return Opaque('np.nan')
+                    raise Undecided('array entry %r / 0' % (a,))
+                return self.binop(op, a, b)
             if la is not None and ra is not None:
                 if len(la) != len(ra):
                     raise Undecided('array shapes %d, %d' % (len(la),
                                                               len(ra)))
-                return SArr([self.binop(op, a, b) for a, b in zip(la, ra)])
+                return SArr([elem(a, b) for a, b in zip(la, ra)])
             if la is not None:
-                return SArr([self.binop(op, a, r) for a in la])
-            return SArr([self.binop(op, l, b) for b in ra])
+                return SArr([elem(a, r) for a in la])
+            return SArr([elem(l, b) for b in ra])
         lv, rv = isinstance(l, Vec), isinstance(r, Vec)
         if lv and rv:
             if op in (ast.Add, ast.Sub):
